@@ -22,6 +22,8 @@ fn jobs(plan: &Plan) -> Vec<Job> {
     let t = plan.tier;
     let mut v = entry_jobs(plan, "C09", "clone", t.pick(40, 600, 1), |d| d.flags.clone);
     v.extend(stack_jobs(plan, "C09", "stack-clone", t.pick(10, 120, 0), |d| d.flags.clone));
+    v.extend(entry_jobs(plan, "C09", "chain", t.pick(32, 300, 1), |d| super::chain::eligible(d, super::chain::Fin::Copy)));
+    v.extend(stack_jobs(plan, "C09", "stack-chain", t.pick(6, 50, 0), |d| super::chain::eligible_stack(d, super::chain::Fin::Copy)));
     v
 }
 
@@ -37,10 +39,23 @@ fn required(plan: &Plan) -> Vec<String> {
     v.push("clone_from:dst-merged".into());
     v.push("clone_from:dst-more-columns".into());
     v.push("clone_from:dst-fewer-columns".into());
+    for d in plan.reg {
+        if super::chain::eligible(d, super::chain::Fin::Copy) {
+            v.push(format!("chain:{}", d.label));
+        }
+        if super::chain::eligible_stack(d, super::chain::Fin::Copy) {
+            v.push(format!("stack-chain:{}", d.label));
+        }
+    }
+    v.push("next-generation".into());
+    v.extend(super::chain::required_pairs(super::chain::Fin::Copy));
     v
 }
 
 pub fn run<E: Entry>(ctx: &mut Ctx) {
+    if ctx.what == "chain" {
+        return super::chain::run::<E>(ctx, super::chain::Fin::Copy, "clone-chain");
+    }
     let h = ctx.hist_no;
     let kind = kind_for(h);
     let n1 = ctx.rng.range(1, if ctx.tier == Tier::Miri { 5 } else { 24 });
@@ -209,6 +224,9 @@ pub fn run<E: Entry>(ctx: &mut Ctx) {
 }
 
 pub fn run_stack<E: Entry, S: IdxC<Idx<E>>>(ctx: &mut Ctx) {
+    if ctx.what == "stack-chain" {
+        return super::chain::run_stack::<E, S>(ctx, super::chain::Fin::Copy, "stack-clone-chain");
+    }
     let kind = kind_for(ctx.hist_no / 3);
     let n1 = ctx.rng.range(1, 30);
     let pool: Vec<E::V> = <E::V as Val>::gen_run(&mut ctx.rng, Dom::new(kind), n1 + 4);
